@@ -59,3 +59,35 @@ Definition tree_ok (p : rparams) : option bool :=
   match leaves (reset_of p true) with Some l => Some (forallb (outcome_ok p) l) | None => None end.
 Definition tree_size (p : rparams) : option Z :=
   match leaves (reset_of p true) with Some l => Some (Z.of_nat (length l)) | None => None end.
+
+(* ---- C14: a verified reachability check for walk-only dynamics ---- *)
+(* breadth-first search over cells satisfying `ok` (generic version of Reward.bfs) *)
+Fixpoint bfsP (fuel : nat) (ok : pos -> bool) (visited frontier : list pos) (dst : pos) : bool :=
+  match fuel with
+  | O => false
+  | S f =>
+      if memP dst frontier then true else
+      let next := dedupP (filter (fun q => ok q && negb (memP q visited)) (flat_map neighbours4 frontier)) in
+      match next with [] => false | _ => bfsP f ok (next ++ visited) next dst end
+  end.
+(* cells the agent may walk over on its way to `goal`: enterable, and not a terminating cell other than the goal itself *)
+Definition walkable (g : grid) (terminal : obj -> bool) (goal q : pos) : bool :=
+  in_grid g q && negb (o_blocks_movement (lookupH g q)) && (negb (terminal (lookupH g q)) || pos_eqb q goal).
+Definition can_walk_to (s : state) (terminal : obj -> bool) (goal : pos) : bool :=
+  bfsP (S (Z.to_nat (gheight (sgrid s) * gwidth (sgrid s)))) (walkable (sgrid s) terminal goal) [spos s] [spos s] goal.
+(* the goal cells: the exit, or for the memory tasks the exit whose colour matches the (first) beacon *)
+Definition goal_cells (s : state) (memory_task : bool) : list pos :=
+  let g := sgrid s in
+  if memory_task then
+    match first_some (fun o => if is_ty ty_Beacon o then Some (ocol o) else None) (concat g) with
+    | Some bc => cells_at g (fun o => is_ty ty_Exit o && (ocol o =? bc))
+    | None => []
+    end
+  else cells_at g (is_ty ty_Exit).
+Definition is_memory_task (p : rparams) : bool := match p with PMemory _ _ _ | PMemoryRooms _ _ _ _ _ _ _ => true | _ => false end.
+(* winnable by walking: some goal cell can be reached over walkable cells (any exit terminates) *)
+Definition winnable_walk (p : rparams) (s : state) : bool :=
+  existsb (can_walk_to s (is_ty ty_Exit)) (goal_cells s (is_memory_task p)).
+Definition win_outcome (p : rparams) (r : res state) : bool := match r with Ok s => winnable_walk p s | Err _ => true end.
+Definition tree_winnable (p : rparams) : option bool :=
+  match leaves (reset_of p true) with Some l => Some (forallb (win_outcome p) l) | None => None end.
